@@ -289,6 +289,20 @@ let () =
          List.iter (fun r -> Printf.printf "Y %s rule %s %s %s\n" tag (hex_of_bytes r.r_lhs) (hex_of_bytes r.r_prec)
            (String.concat " " (List.map (function RSym n -> "1 " ^ hex_of_bytes n | RAct c -> "2 " ^ hex_of_bytes c) r.r_rhs))) a.a_rules);
       loop ()
+    | Some "E" ->
+      (* E id hex : the whole model from the text of the grammar file; prints the tables like T *)
+      let id = (match next () with Some s -> s | None -> failwith "id") in
+      let src = (match next () with Some s -> bytes_of_hex s | None -> failwith "eof") in
+      cur_id := id; cur_tabs := None; cur_act := []; Hashtbl.reset memo; cur_gi := None;
+      (match generate_text src with
+       | GSyntax _ -> Printf.printf "%s e2e syntax\n" id
+       | GFront _ -> Printf.printf "%s e2e front\n" id
+       | GTooMany -> Printf.printf "%s e2e toomany\n" id
+       | GOk (b, t) ->
+         cur_gi := Some b.b_gi; cur_tabs := Some (Inr t);
+         Printf.printf "%s e2e ok\n" id;
+         dump_tables ());
+      loop ()
     | Some "M" ->
       (* M tag rows cols cells... : pack a matrix, print unpack(pack) and the lookups *)
       let tag = (match next () with Some s -> s | None -> failwith "tag") in
